@@ -132,6 +132,18 @@ func RunC13(r *sim.Run) {
 			r.Checked("leader_guard")
 			if err == nil {
 				served++
+				// ground truth, independent of what the replica's own bookkeeping says:
+				// client-go's elector starts a renewal round one retry period after the
+				// last successful one and gives leadership up when that round has lasted
+				// for the renew deadline. A replica that serves must therefore have
+				// written the lease (naming itself) within retry period + renew deadline.
+				r.Checked("served_only_while_renewing_the_lease")
+				lr, ok := w.LastRenewal(rp, shard)
+				if bound := RetryPeriod + w.RenewDeadline + 300*time.Millisecond; !ok || time.Since(lr) > bound {
+					holder, _, _ := w.LeaseOf(shard)
+					r.Violate("served_after_leadership_ended", kind, "replica %s answered an %s for upstream %s (shard %d) successfully, but it last renewed the shard's lease %v ago (its elector gives up after at most %v); the lease is now held by %q", rp.Name, kind, u, shard, time.Since(lr).Round(time.Millisecond), bound, holder)
+					return
+				}
 				if !before && !after {
 					r.Violate("served_without_leadership", kind, "replica %s answered an %s for upstream %s (shard %d) successfully although it did not hold the shard's leadership before or after the call (leaders it knows: %v)", rp.Name, kind, u, shard, leadersBrief(rp))
 					return
